@@ -394,6 +394,13 @@ func ParseTemplateSource(src []byte, format ast.Format, imported, noParseShow bo
 
 		// StartURL
 		case tokenStartURL:
+			if (imported || p.hasExtend) && len(p.ancestors) == 1 {
+				// A URL in a Markdown file is text.
+				if imported {
+					return nil, nil, syntaxError(tok.pos, "unexpected text in imported file")
+				}
+				return nil, nil, syntaxError(tok.pos, "unexpected text in file with extends")
+			}
 			node := ast.NewURL(tok.pos, tok.tag, tok.att, nil)
 			p.addNode(node)
 			tok = p.next()
